@@ -675,6 +675,15 @@ class SX(object):
     def _format(fmt, a, k):
         # only used for messages; symbolic parts become opaque markers
         def conv(x):
+            if isinstance(x, SymStr):
+                # text that could hold a format metacharacter is made concrete on that branch (a str built from it may
+                # be used as a format template later); otherwise it stays an opaque marker
+                its = x._get()
+                cs = [z3.Or(SymInt.lift(i).at(21) == 0x7B, SymInt.lift(i).at(21) == 0x7D) for i in its if not isinstance(i, _int)]
+                has = any(i in (0x7B, 0x7D) for i in its if isinstance(i, _int))
+                if has or (cs and Ctx.cur.branch(z3.Or(cs) if len(cs) > 1 else cs[0])):
+                    return ''.join(chr(i if isinstance(i, _int) else i.concretize()) for i in its)
+                return SymMarker(x)
             if isinstance(x, (SymInt, SymBool, SymReal, SymSeq, SymStr, symdata.SymNegInt)):
                 return SymMarker(x)
             return x
